@@ -213,7 +213,16 @@ func runE2E(sysName string, c *chunkCase, scale int, seed int64, overExisting bo
 	r := newReq("PUT", "/"+bucket+"/obj")
 	r.Header.Set("X-Amz-Content-Sha256", "STREAMING-AWS4-HMAC-SHA256-PAYLOAD")
 	r.Header.Set("X-Amz-Decoded-Content-Length", strconv.Itoa(b.declared))
-	r.Header.Set("Content-Encoding", "aws-chunked")
+	// the framing is announced by X-Amz-Content-Sha256; Content-Encoding names it alone, together with the
+	// object's own coding, not at all, or names only the object's coding (rotating over the cases)
+	switch (len(b.wire) + scale + int(seed)) % 5 {
+	case 0, 1:
+		r.Header.Set("Content-Encoding", "aws-chunked")
+	case 2:
+		r.Header.Set("Content-Encoding", "aws-chunked,gzip")
+	case 3:
+		r.Header.Set("Content-Encoding", "gzip")
+	}
 	r.Header.Set("Content-Length", strconv.Itoa(len(b.wire)))
 	r.CLen = int64(len(b.wire))
 	r.Body = &fragReader{data: b.wire, frags: scaled(c.Frags, scale), withData: c.EOF == "withdata"}
